@@ -6,7 +6,7 @@ use std::time::Duration;
 
 use datacake_crdt::{verif_clock, HLCTimestamp};
 use datacake_node::verif::{self, NodeMembership, NodeSelectorHandle};
-use datacake_node::{Clock, ClusterMember, Consistency, ConsistencyError, DCAwareSelector, MembershipChange, Nodes};
+use datacake_node::{Clock, ClusterMember, Consistency, ConsistencyError, DCAwareSelector, MembershipChanges, Nodes};
 use futures::StreamExt;
 use tokio::sync::watch;
 use tokio_stream::wrappers::WatchStream;
@@ -82,22 +82,23 @@ fn fmt_members(ms: &[ClusterMember]) -> String {
 }
 
 struct Subscriber {
-    stream: WatchStream<MembershipChange>,
+    stream: MembershipChanges,
     live: BTreeMap<u8, SocketAddr>,
 }
 
 pub struct NodeDomain {
     selector: Option<NodeSelectorHandle>,
     members_tx: Option<watch::Sender<NodeMembership>>,
-    changes_rx: Option<watch::Receiver<MembershipChange>>,
-    probe: Option<watch::Receiver<MembershipChange>>,
+    changes_rx: Option<watch::Receiver<NodeMembership>>,
+    probe: Option<watch::Receiver<NodeMembership>>,
+    self_id: u8,
     subs: Vec<Subscriber>,
     clock: Option<Clock>,
 }
 
 impl NodeDomain {
     pub fn new(_params: &[&str]) -> Self {
-        Self { selector: None, members_tx: None, changes_rx: None, probe: None, subs: Vec::new(), clock: None }
+        Self { selector: None, members_tx: None, changes_rx: None, probe: None, self_id: 0, subs: Vec::new(), clock: None }
     }
 }
 
@@ -147,7 +148,7 @@ impl Domain for NodeDomain {
             "mem-init" => {
                 let self_id = p_u64(t[1]) as u8;
                 let (mtx, mrx) = watch::channel(NodeMembership::new());
-                let (ctx, crx) = watch::channel(MembershipChange::default());
+                let (ctx, crx) = watch::channel(NodeMembership::new());
                 let sel = runtime().block_on(verif::start_node_selector(addr(0), Cow::Borrowed("dc-0"), DCAwareSelector::default()));
                 let mut probe = crx.clone();
                 runtime().spawn(verif::run_membership_watcher(self_id, sel, WatchStream::new(mrx), ctx));
@@ -156,6 +157,7 @@ impl Domain for NodeDomain {
                 self.members_tx = Some(mtx);
                 self.changes_rx = Some(crx);
                 self.probe = Some(probe);
+                self.self_id = self_id;
                 self.subs.clear();
                 "ok".to_string()
             },
@@ -166,15 +168,16 @@ impl Domain for NodeDomain {
                 let ok = runtime().block_on(async { tokio::time::timeout(Duration::from_secs(5), probe.changed()).await });
                 match ok {
                     Ok(Ok(())) => {
+                        // what the node's watcher published for its subscribers: the membership it has just processed
                         let d = probe.borrow_and_update().clone();
-                        format!("published joined={} left={}", fmt_members(&d.joined), fmt_members(&d.left))
+                        format!("published {}", fmt_members(&d.values().cloned().collect::<Vec<_>>()))
                     },
                     _ => "timeout".to_string(),
                 }
             },
             "mem-sub" => {
                 let rx = self.changes_rx.as_ref().expect("init").clone();
-                self.subs.push(Subscriber { stream: WatchStream::new(rx), live: BTreeMap::new() });
+                self.subs.push(Subscriber { stream: verif::membership_changes(self.self_id, rx), live: BTreeMap::new() });
                 format!("sub {}", self.subs.len() - 1)
             },
             "mem-read" => {
